@@ -247,6 +247,73 @@ def same_shape(t1, t2):
     return True
 
 
+def relayout(r, text, toks):
+    """The same token sequence laid out differently *within* each line: every indentation character
+    doubled (prefix relations between indentations, which is all the tokenizer looks at, are kept),
+    every non-empty gap between two tokens replaced by a random blank string, blanks appended after
+    a Documentation token.  Line structure (blank lines, comment lines) is untouched, so the parse
+    tree is `equivT` to the original one: `C11_format_factors_partial` says the formatted text must
+    be the same."""
+    lines = text.split("\n")
+    per_line = {}
+    for t in toks:
+        if t.symbol in (NL, "Indent", "Dedent"):
+            continue
+        per_line.setdefault(t.source_location.start.line, []).append(t)
+    out = []
+    for n, line in enumerate(lines, 1):
+        ts = per_line.get(n)
+        if not ts:
+            out.append(line)
+            continue
+        first = ts[0].source_location.start.column - 1
+        new = "".join(ch * 2 for ch in line[:first])
+        prev_end = None
+        for t in ts:
+            a, b = t.source_location.start.column - 1, t.source_location.end.column - 1
+            if prev_end is not None:
+                new += r.choice([" ", "  ", "   ", " \t", "     "]) if line[prev_end:a] else ""
+            new += line[a:b]
+            prev_end = b
+        if ts[-1].symbol == "Documentation":
+            new += r.choice(["", " ", "    "])
+        else:
+            new += line[prev_end:]
+        out.append(new)
+    return "\n".join(out)
+
+
+def relaid_case(st, r, text, k):
+    """Metamorphic use of the normal-form theorem on the real code: a re-laid-out copy of `text`
+    goes through the whole oracle + correspondence as an input of its own, and the real formatter
+    must give the same text for both."""
+    toks, tree = parse(text)
+    if toks is None:
+        return
+    try:
+        text2 = relayout(r, text, toks)
+    except Exception:  # noqa: BLE001  (positions the helper does not understand: not a formatter matter)
+        st.bump(st.stats, "relaid_rejected")
+        return
+    toks2, tree2 = parse(text2)
+    if text2 == text or toks2 is None or not same_shape(tree2, tree):
+        st.bump(st.stats, "relaid_rejected")
+        return
+    run_text(st, text2, [k], "relaid", with_ir=False)
+    try:
+        same = real_format(tree2, k) == real_format(tree, k)
+    except Exception:  # noqa: BLE001  (reported by the oracle in run_text)
+        return
+    st.bump(st.stats, "relaid_same_output" if same else "relaid_output_differs")
+    if not same and len(st.chk.violations) < st.max_viol:
+        st.chk.violation("correspondence", {
+            "input": text, "relaid_input": text2, "indent_width": k,
+            "theorem_or_correspondence": "C11_format_factors_partial: trees that differ only in layout-token "
+                                         "texts / trailing blanks of documentation are formatted to the same text",
+            "note": "the real formatter's output depends on the layout of the source; the model's provably "
+                    "does not (not by itself a violation of the property statement)"}, found_input=False)
+
+
 def fixed_point_hypothesis(st, tree, out):
     """How often idempotence is a consequence of the theorem: the parse tree of the formatted
     text has the shape of the original one (the source already had the formatter's blank-line and
@@ -461,7 +528,10 @@ def widths_for(r, tier, n):
 def generated_stream(st, r, n, nwidths):
     for _ in range(n):
         text, toks = fmtgen.program(r, st.stats)
-        run_text(st, text, widths_for(r, st.tier, nwidths), "generated")
+        ws = widths_for(r, st.tier, nwidths)
+        run_text(st, text, ws, "generated")
+        if _ % 3 == 0:
+            relaid_case(st, r, text, ws[0])
 
 
 class Collector:
@@ -838,6 +908,11 @@ def run(tier):
         run_text(st, t, [2, 4] if quick else list(range(1, 9)), "corpus", with_ir=not quick or len(t) < 6000)
     for t in BOUNDARY + list(PINNED.values()):
         run_text(st, t, list(range(1, 9)), "boundary")
+        relaid_case(st, r, t, r.randrange(1, 9))
+    for name, t in corpus:
+        if quick and len(t) > 6000:
+            continue
+        relaid_case(st, r, t, r.randrange(1, 9))
     chk.extra["t_corpus_s"] = round(time.time() - t0, 1)
 
     t1 = time.time()
